@@ -28,6 +28,7 @@ const (
 	KFMangle      = "KF-vm-mangle-ambiguity"
 	KFReexec      = "KF-tree-module-reexec"
 	KFImportCopy  = "KF-tree-import-copies-global"
+	KFReexport    = "KF-analyzer-reexport-trigger-templ"
 )
 
 const vmLinkSigs = `wrong-module-(global|fn)|wrong-global-state|wrong-name|nondeterministic|outcome:fatal/StackOverFlow` +
@@ -94,12 +95,25 @@ var Findings = []Finding{
 			{Name: "a", Items: []Item{edge("a"), {Name: "v", Kind: "let", Pub: true}}},
 		}},
 	},
+	{
+		KF: KFReexport, Tag: TagReexport, Restricts: true,
+		Sig:  `^analyzer:not-exportable-import-accepted$`,
+		What: "a trigger or template that module b merely imported from a builtin module can be imported from b (`import trigger minute from b`) without any diagnostic, although b defines nothing of that name and nothing in b is `pub`",
+		Witness: Graph{Family: "witness", Mods: []Mod{
+			{Name: "main", Imports: []Import{{From: "b", Items: []ImpItem{{Name: "minute", Other: "trigger"}}}}},
+			{Name: "b", HostImports: []HostImport{{From: "triggers", Item: ImpItem{Name: "minute", Other: "trigger"}}}},
+		}},
+	},
 }
 
 // WitnessCase builds the pinned witness case of a finding.
 func WitnessCase(f Finding) fw.Case {
 	g := f.Witness
-	return fw.MkCase("witness", "witness", Payload{Gs: []Graph{g}, Poison: true}, Hazards(&g, LinkGraph(&g))...)
+	tags := StructuralTags(&g)
+	if lk := LinkGraph(&g); lk.Accepted {
+		tags = append(tags, Hazards(&g, lk)...)
+	}
+	return fw.MkCase("witness", "witness", Payload{Gs: []Graph{g}, Poison: true}, tags...)
 }
 
 // OpenLines renders the `open:` lines proposed for known_findings.txt.
